@@ -204,3 +204,138 @@ func legacySiafunds(c *vf.Ctx, only *Case) {
 		}
 	}
 }
+
+// legacyMint: the same legacy rule lets a v2 transaction claim ANY value for a siacoin parent created earlier in the
+// block, so below the ephemeral-output height sums can exceed what 128 bits hold although every single transaction is
+// within bounds. (1) v2 only (network v2-eph5): one block in which 30 transactions each claim an in-block parent worth
+// almost 2^128 H and form a contract with it - the siafund tax pool is the sum of their taxes; (2) a network that still
+// admits v1 transactions below its ephemeral-output height: block N mints two outputs of 2^127 H to a v1 address, a v1
+// transaction of block N+1 spends both (v1 input sum). Each block is legal by the rules of that era; validation must
+// return a verdict.
+func legacyMint(c *vf.Ctx, only *Case) {
+	keys := chain.NewKeys(c.Seed)
+	try := func(net, what string, h uint64, w *chain.World, b types.Block, bs consensus.V1BlockSupplement) (accepted bool) {
+		c.Count("evaluations", 1)
+		c.Count("legacy_mint_probes", 1)
+		c.Distinct(net, "legacy-mint", what, h)
+		var err error
+		if pv, st := vf.Try(func() { err = consensus.ValidateBlock(w.CS, b, bs) }); pv != nil {
+			c.Violate("validate|ValidateBlock|panic:"+panicClass(pv)+"|"+what+", below the ephemeral-output height",
+				fmt.Sprintf("[%s height %d] ValidateBlock panicked (%s): %v\n%s", net, h, what, pv, firstLines(st, 14)),
+				Case{Half: "validation", Network: net, Seed: c.Seed, Target: "legacy-mint", Path: what})
+			return false
+		}
+		return err == nil
+	}
+	// (1)
+	if what := "in-block parents claimed with almost 2^128 H each fund 30 contracts: tax pool sum"; only == nil || only.Path == what {
+		sp := chain.Spec("v2-eph5")
+		w, p := chain.NewWorld(sp, keys, chain.DefaultAlloc(keys), chain.Options{})
+		if p != nil {
+			c.HarnessError("legacy mint: genesis: %v", p)
+			return
+		}
+		for w.ChildHeight() < sp.Ephemeral {
+			h := w.ChildHeight()
+			bc := w.NewBlockCtx()
+			if pp, ok := bc.PickSC(func(cl int) bool { return cl == chain.AddrV2 }, types.Siacoins(100)); ok && h >= sp.Allow {
+				const n = 30
+				t1 := types.V2Transaction{SiacoinInputs: []types.V2SiacoinInput{{Parent: pp}}}
+				for i := 0; i < n; i++ {
+					v := pp.SiacoinOutput.Value.Div64(n)
+					if i == 0 {
+						v = pp.SiacoinOutput.Value.Sub(v.Mul64(n - 1))
+					}
+					t1.SiacoinOutputs = append(t1.SiacoinOutputs, types.SiacoinOutput{Value: v, Address: keys.Addr(chain.AddrV2)})
+				}
+				w.SignV2(&t1)
+				txns := []types.V2Transaction{t1}
+				big := types.NewCurrency(0, 1<<63).Add(types.NewCurrency(0, 1<<62)).Add(types.NewCurrency(0, 1<<61)) // 0.875 * 2^128
+				for i := 0; i < n; i++ {
+					e := t1.EphemeralSiacoinOutput(i)
+					e.SiacoinOutput.Value = big
+					fc := w.NewV2Contract(h, 3, 2, 100)
+					fc.RenterOutput.Value = big.Div64(26).Mul64(25)
+					fc.HostOutput.Value, fc.MissedHostValue, fc.TotalCollateral = types.ZeroCurrency, types.ZeroCurrency, types.ZeroCurrency
+					w.SignContract(&fc, 0, 1)
+					cost := fc.RenterOutput.Value.Add(w.CS.V2FileContractTax(fc))
+					t := types.V2Transaction{SiacoinInputs: []types.V2SiacoinInput{{Parent: e}}, SiacoinOutputs: []types.SiacoinOutput{{Value: big.Sub(cost), Address: keys.Addr(chain.AddrV2)}},
+						FileContracts: []types.V2FileContract{fc}, ArbitraryData: []byte{byte(i)}}
+					w.SignV2(&t)
+					txns = append(txns, t)
+				}
+				b, bs := w.BuildBlock(nil, txns, chain.BlockOpts{})
+				try("v2-eph5", what, h, w, b, bs)
+				// control: the same block with a single minting transaction is legal in this era
+				b1, bs1 := w.BuildBlock(nil, txns[:2], chain.BlockOpts{})
+				if try("v2-eph5", what+" (control: one of them)", h, w, b1, bs1) {
+					c.Count("legacy_mint_control_accepted", 1)
+				}
+			}
+			b, bs := w.BuildBlock(nil, nil, chain.BlockOpts{})
+			if err, pr := w.Apply(b, bs); err != nil || pr != nil {
+				c.HarnessError("legacy mint: history block rejected: %v %v", err, pr)
+				return
+			}
+		}
+	}
+	// (2)
+	if what := "two outputs of 2^127 H minted to a v1 address in the previous block are spent by one v1 transaction: input sum"; only == nil || only.Path == what {
+		sp := chain.Spec("mixed")
+		sp.Ephemeral = sp.Require - 1
+		w, p := chain.NewWorld(sp, keys, chain.DefaultAlloc(keys), chain.Options{})
+		if p != nil {
+			c.HarnessError("legacy mint: genesis: %v", p)
+			return
+		}
+		for w.ChildHeight()+1 < sp.Ephemeral {
+			h := w.ChildHeight()
+			bc := w.NewBlockCtx()
+			if pp, ok := bc.PickSC(func(cl int) bool { return cl == chain.AddrV2 }, types.Siacoins(100)); ok && h >= sp.Allow {
+				half := types.NewCurrency(0, 1<<63)
+				t1 := types.V2Transaction{SiacoinInputs: []types.V2SiacoinInput{{Parent: pp}}, SiacoinOutputs: []types.SiacoinOutput{
+					{Value: pp.SiacoinOutput.Value.Div64(2), Address: keys.Addr(chain.AddrV2)}, {Value: pp.SiacoinOutput.Value.Sub(pp.SiacoinOutput.Value.Div64(2)), Address: keys.Addr(chain.AddrV2)}}}
+				w.SignV2(&t1)
+				txns := []types.V2Transaction{t1}
+				for i := 0; i < 2; i++ {
+					e := t1.EphemeralSiacoinOutput(i)
+					e.SiacoinOutput.Value = half
+					t := types.V2Transaction{SiacoinInputs: []types.V2SiacoinInput{{Parent: e}}, SiacoinOutputs: []types.SiacoinOutput{{Value: half, Address: keys.Addr(chain.AddrV1)}}, ArbitraryData: []byte{byte(i)}}
+					w.SignV2(&t)
+					txns = append(txns, t)
+				}
+				w1 := w.Clone()
+				w1.Opt = chain.Options{}
+				b, bs := w1.BuildBlock(nil, txns, chain.BlockOpts{})
+				if try("mixed(ephemeral=require-1)", what+" (minting block)", h, w1, b, bs) {
+					cs1, au := consensus.ApplyBlock(w1.CS, b, bs, w1.TargetTimestamp())
+					var minted []types.SiacoinElement
+					for _, d := range au.SiacoinElementDiffs() {
+						if d.Created && !d.Spent && d.SiacoinElement.SiacoinOutput.Value == half {
+							minted = append(minted, d.SiacoinElement.Copy())
+						}
+					}
+					if len(minted) == 2 && cs1.Index.Height+1 < sp.Require {
+						c.Count("legacy_mint_control_accepted", 1)
+						v1 := types.Transaction{SiacoinOutputs: []types.SiacoinOutput{{Value: half, Address: keys.Addr(chain.AddrV1)}}}
+						for _, m := range minted {
+							v1.SiacoinInputs = append(v1.SiacoinInputs, types.SiacoinInput{ParentID: m.ID, UnlockConditions: keys.StdUC(0)})
+						}
+						w1.CS = cs1
+						w1.SignV1Whole(&v1)
+						nb := types.Block{ParentID: cs1.Index.ID, Timestamp: cs1.PrevTimestamps[0].Add(cs1.Network.BlockInterval), Transactions: []types.Transaction{v1},
+							MinerPayouts: []types.SiacoinOutput{{Value: cs1.BlockReward(), Address: types.VoidAddress}}}
+						chain.Seal(cs1, &nb)
+						nbs := consensus.V1BlockSupplement{Transactions: []consensus.V1TransactionSupplement{{SiacoinInputs: minted}}}
+						try("mixed(ephemeral=require-1)", what, h+1, w1, nb, nbs)
+					}
+				}
+			}
+			b, bs := w.BuildBlock(nil, nil, chain.BlockOpts{})
+			if err, pr := w.Apply(b, bs); err != nil || pr != nil {
+				c.HarnessError("legacy mint: history block rejected: %v %v", err, pr)
+				return
+			}
+		}
+	}
+}
